@@ -36,7 +36,7 @@ var reserved = map[string]bool{
 	"ensures": true, "modifies": true, "loop": true, "invariant": true, "inline": true, "pure": true,
 	"forall": true, "exists": true, "struct": true, "var": true, "const": true,
 	"impl": true, "callinv": true, "unchecked": true, "assumes": true, "lockfree": true, "guarded": true, "acquires": true,
-	"nopanic": true, "terminates": true, "abstractbody": true, "let": true, "in": true, "reads": true,
+	"nopanic": true, "terminates": true, "derived": true, "view": true, "private": true, "abstractbody": true, "let": true, "in": true, "reads": true,
 }
 
 func lexSpec(file string, startLine int, src string) ([]stok, error) {
@@ -241,6 +241,7 @@ type Contract struct {
 	NoPanic  bool // trusted: callee does not panic (default true for trusted)
 	Abstract bool // body not verified (abstracted function), contract assumed => listed as assumption
 	Flags    map[string]bool
+	Derived  map[string]string // clause id -> lemma by which it follows from the other clauses
 	File     string
 	Line     int
 }
@@ -286,7 +287,27 @@ type PkgInvariant struct {
 	Imports map[string]string
 }
 
+// ImplBlock: "impl (*T) Iface (recv, idx)" — T's methods are verified against Iface's method
+// contracts, the ghost variable named by `view` being read off T's concrete state.
+type ImplBlock struct {
+	Pkg      string
+	Recv     string // "*T" or "T"
+	Iface    string
+	RecvName string
+	IdxName  string
+	Requires []Clause
+	Invariants []Clause // representation invariants: assumed at entry, proved at every return of every method
+	Ghost    string // ghost variable the view defines (indexed [self.pay][idx])
+	View     Expr
+	ViewSrc  string
+	Private  []ModItem // locations only this type touches (its frame)
+	Imports  map[string]string
+	File     string
+	Line     int
+}
+
 type SpecFile struct {
+	Impls      []*ImplBlock
 	Invariants []*PkgInvariant
 	Imports   map[string]string
 	Contracts []*Contract
@@ -414,6 +435,48 @@ func parseSpecTokens(toks []stok, pkg string) (sf *SpecFile, err error) {
 			p.expect(":")
 			ax.E = p.parseExpr()
 			sf.Axioms = append(sf.Axioms, ax)
+		case p.accept("impl"):
+			ib := &ImplBlock{Pkg: p.pkg, Imports: sf.Imports, File: t.file, Line: t.line}
+			p.expect("(")
+			if p.accept("*") {
+				ib.Recv = "*"
+			}
+			ib.Recv += p.ident()
+			p.expect(")")
+			ib.Iface = p.qualName()
+			p.expect("(")
+			ib.RecvName = p.ident()
+			p.expect(",")
+			ib.IdxName = p.ident()
+			p.expect(")")
+			for {
+				kw := p.peek()
+				if p.accept("requires") {
+					ib.Requires = append(ib.Requires, p.parseClause(kw, fmt.Sprintf("req%d", len(ib.Requires)+1)))
+				} else if p.accept("invariant") {
+					ib.Invariants = append(ib.Invariants, p.parseClause(kw, fmt.Sprintf("repinv%d", len(ib.Invariants)+1)))
+				} else if p.accept("view") {
+					ib.Ghost = p.ident()
+					p.expect(":")
+					start := p.pos
+					ib.View = p.parseExpr()
+					var sb strings.Builder
+					for i := start; i < p.pos; i++ {
+						sb.WriteString(p.toks[i].s + " ")
+					}
+					ib.ViewSrc = sb.String()
+				} else if p.accept("private") {
+					for {
+						ib.Private = append(ib.Private, p.parseModItem())
+						if !p.accept(",") {
+							break
+						}
+					}
+				} else {
+					break
+				}
+			}
+			sf.Impls = append(sf.Impls, ib)
 		case p.isKw("invariant"):
 			kw := p.next()
 			cl := p.parseClause(kw, fmt.Sprintf("inv%d", len(sf.Invariants)+1))
@@ -550,6 +613,19 @@ func (p *parser) parseContract() *Contract {
 			k, _ := strconv.Atoi(n.s)
 			p.expect("invariant")
 			c.LoopInv[k] = append(c.LoopInv[k], p.parseClause(t, fmt.Sprintf("inv%d", len(c.LoopInv[k])+1)))
+		case p.accept("derived"):
+			// derived <clause id> by <lemma>: the clause follows from the other clauses by the lemma;
+			// implementations need not prove it separately
+			id := p.next().s
+			p.expect("by")
+			ln := p.ident()
+			for p.accept("-") {
+				ln += "-" + p.ident()
+			}
+			if c.Derived == nil {
+				c.Derived = map[string]string{}
+			}
+			c.Derived[id] = ln
 		case p.accept("inline"):
 			c.Inline = true
 		case p.accept("pure"):
